@@ -21,7 +21,9 @@ CLAIM = dict(
          "i^n prod (R+t_b-t_a)_alpha preserves that relation and the k-space matrix and all its derivative components are "
          "Hermitian; hermitize is idempotent and fixes Hermitian input; for EVERY history of set_fft_R_to_k calls on one "
          "Rvectors object (grids with any NK/fftlib/dK and k lists in any order) R_to_k returns what the CURRENT "
-         "configuration alone prescribes (state machine with the stale expdK of the k-list branch modelled).  Model tied to the code by exact comparison of box "
+         "configuration alone prescribes (state machine with the stale expdK of the k-list branch modelled); _rotate "
+         "(U^dagger X U) maps Hermitian matrices to Hermitian matrices for any U, so Xbar(name, der) is Hermitian component by "
+         "component.  Model tied to the code by exact comparison of box "
          "contents, cRvec_shifted, and R_to_k(der=0..3) values for fftw/numpy/slow/k-list on Gaussian-integer data, and of call sequences on one object.",
     note="Trusted: Lean kernel + Mathlib; the harness; numpy.fft / FFTW compute the inverse DFT sum (hypothesis IDFTContract; "
          "checked numerically against the explicit sum on every run); FFTW plan reuse and in-place destruction are runtime "
@@ -33,8 +35,9 @@ TRUSTED = [
     "hypothesis IDFTContract: ifftn(B)*prod(N) at box point m equals sum_c chi_m(c) B(c) (checked against the slow path "
     "and the explicit sum on every run)",
     "modelled: the Fourier state of one Rvectors object over a history of set_fft_R_to_k calls (expdK, transform)",
-    "not modelled (oracle only): Data_K_R.HH_K / Xbar / _rotate glue, FFTW plan reuse, in-place destruction of inputs, "
-    "Data_K construction from Grid/K-point, Xbar of AA",
+    "modelled: Data_K._rotate (U^dagger X U per k-point and Cartesian component; Hermiticity survives it for any U)",
+    "not modelled (oracle only): eigh (the U that is used), Data_K_R.HH_K / Xbar dispatch, FFTW plan reuse, in-place destruction "
+    "of inputs, Data_K construction from Grid/K-point",
 ]
 RULE = ("R sets of 1-30 vectors within |R_i|<=4 (symmetric under inversion for the oracle), 1-4 Wannier functions with "
         "centres inside/outside the home cell, lattices cubic..triclinic, FFT boxes in [1,6]^3 both >= and < the recommended "
@@ -102,7 +105,7 @@ def exact_rows(A):
 
 def corr(ctx):
     from .c01 import run_batched
-    run_batched(ctx, [corr_box, corr_crs, corr_rtok, corr_seq])
+    run_batched(ctx, [corr_box, corr_crs, corr_rtok, corr_seq, corr_rotate])
 
 
 def corr_box(ctx):
@@ -292,6 +295,47 @@ def corr_seq(ctx):
                 ctx.mismatch(f"history of set_fft_R_to_k calls: after call #{istep + 1} ({c['steps'][istep]}) R_to_k differs from "
                              f"the model by {np.abs(m - ev).max() if m.shape == ev.shape else 'shape'}", dict(line=l[:300], case=c))
                 break
+
+
+def corr_rotate(ctx):
+    """Data_K._rotate (U^dagger X U per k-point, every Cartesian component) with an injected eigenvector array of Gaussian
+    dyadic numbers vs the model, exactly"""
+    from ..wbsys import wb
+    from wannierberri.data_K.data_K_R import Data_K_R
+    rng = ctx.rng
+    lines, expect, cases = [], [], []
+    for it in range(ctx.n(6, 40)):
+        nw = rng.randint(1, 3)
+        with quiet():
+            s = make_system(rng, nw=nw, keys=("Ham",), nR=3, maxR=1)
+            N = [rng.choice([1, 2]) for _ in range(3)]
+            grid = wb.Grid(s, NKdiv=1, NKFFT=N, use_symmetry=False)
+            Kp = grid.get_K_list(use_symmetry=False)[0]
+            d = Data_K_R(s, dK=Kp.Kp_fullBZ, grid=grid, Kpoint=Kp, fftlib="numpy")
+        nk = int(np.prod(N))
+        U = gint(rng, (nk, nw, nw), m=4) / 2
+        ncart = rng.choice([0, 1, 2])
+        X = gint(rng, (nk, nw, nw) + (3,) * ncart, m=5)
+        case = dict(num_wann=nw, nk=nk, U=U, X=X)
+        with ctx.attempt("Data_K._rotate", case):
+            d.__dict__["UU_K"] = U            # cached_property: the instance attribute takes precedence
+            with quiet():
+                R = np.array(d._rotate(X.copy()))
+            for _ in range(2):
+                ik = rng.randrange(nk)
+                comp = tuple(rng.randrange(3) for _ in range(ncart))
+                Xs = X[(ik, slice(None), slice(None)) + comp]
+                us = ";".join(f"{F(z.real)},{F(z.imag)}" for z in U[ik].reshape(-1))
+                lines.append(f"rotate {nw} {us} {gstr(Xs.reshape(-1))}")
+                expect.append(R[(ik, slice(None), slice(None)) + comp].reshape(-1))
+                cases.append(dict(case, ik=ik, comp=comp))
+    out = yield lines
+    for l, o, e, c in zip(lines, out, expect, cases):
+        ctx.case(signature=l, nontrivial=c["num_wann"] > 1)
+        m = cplx(o)
+        if m.shape != e.shape or np.abs(m - e).max() > 1e-12 * (1 + np.abs(m).max()):
+            ctx.mismatch(f"Data_K._rotate differs from the model U^dagger X U at k #{c['ik']}, component {c['comp']}",
+                         dict(line=l[:300], case=c))
 
 
 # ------------------------------------------------------------------------------------------------
